@@ -410,6 +410,32 @@ func runC16(c *core.Ctx, res *core.Result) {
 			}
 		}(g)
 	}
+	var appliedNow atomic.Int64
+	var blockedMsg atomic.Value
+	wg.Add(1)
+	go func() { // a client that keeps a (refused, i.e. read-only) transaction open: replicated entries must keep being applied
+		defer wg.Done()
+		for !stop.Load() {
+			tx, err := reng.BeginTransaction(false)
+			if err != nil {
+				continue
+			}
+			tx.Get([]byte("rep00"))
+			c0 := appliedNow.Load()
+			t0 := time.Now()
+			for appliedNow.Load() < c0+5 && !stop.Load() {
+				if time.Since(t0) > 5*time.Second {
+					blockedMsg.CompareAndSwap(nil, fmt.Sprintf("while a client transaction was open on the replica no replicated entry was applied for 5s (%d applied before)", c0))
+					break
+				}
+				time.Sleep(time.Millisecond)
+			}
+			tx.Rollback()
+			if blockedMsg.Load() != nil {
+				return
+			}
+		}
+	}()
 	wg.Add(1)
 	go func() { // sampler
 		defer wg.Done()
@@ -444,9 +470,17 @@ func runC16(c *core.Ctx, res *core.Result) {
 			return
 		}
 		applied++
+		appliedNow.Store(int64(applied))
+		if blockedMsg.Load() != nil {
+			break
+		}
 	}
 	stop.Store(true)
 	wg.Wait()
+	if m := blockedMsg.Load(); m != nil {
+		res.Violate("replicated_apply_blocked_by_client", m.(string), feat)
+		return
+	}
 	res.Count("entries_applied_under_client_load", int64(applied))
 	if accepted.Load() > 0 {
 		var names []string
@@ -490,6 +524,25 @@ func runC16(c *core.Ctx, res *core.Result) {
 	sm, _ := replication.NewManager(peng, &replication.ManagerConfig{Enabled: false, Mode: replication.ReplicationModeStandalone})
 	if g := get(sm); g.role != "standalone" || g.ro || g.primary != "" {
 		res.Violate("node_info_mismatch", fmt.Sprintf("standalone manager reports role=%s primary=%q read_only=%v", g.role, g.primary, g.ro), feat)
+	}
+	// stopping the replication manager (what a server shutdown does first) must not make the node writable
+	rm.Stop()
+	if err := reng.Put([]byte("client-after-stop"), []byte("cv")); err == nil {
+		res.Violate("replica_accepted_client_write", "after the replica's replication manager was stopped (server shutting down) an embedded Put was accepted", map[string]string{"entry_point": "Put after Manager.Stop"})
+		return
+	}
+	{
+		ctx, cancel := ctxT(10 * time.Second)
+		_, perr := env.Client.Put(ctx, &pb.PutRequest{Key: []byte("client-after-stop"), Value: []byte("cv")})
+		cancel()
+		if perr == nil {
+			res.Violate("replica_accepted_client_write", "after the replica's replication manager was stopped (server shutting down) a remote Put was accepted", map[string]string{"entry_point": "rpc.Put after Manager.Stop"})
+			return
+		}
+	}
+	if !reng.IsReadOnly() {
+		res.Violate("read_only_flag_flipped", "stopping the replication manager switched the replica's read-only flag off", feat)
+		return
 	}
 	var names []string
 	for n := range refused {
